@@ -163,7 +163,7 @@ class LiteralEnumProperty(PropertyProtocol):
     def convert_value(self, value: Any) -> Value | PropertyError | None:
         if value is None or isinstance(value, Value):
             return value
-        if isinstance(value, self.value_type):
+        if isinstance(value, self.value_type) and not isinstance(value, bool):
             if value in self.values:
                 return Value(python_code=repr(value), raw_value=value)
             else:
